@@ -33,6 +33,7 @@ static Img makeImage(uint64_t idx, int maxK) {
 }
 static uint64_t countImages(int maxK) { uint64_t t = 0, n = 1; for (int k = 0; k <= maxK; k++) { t += n; n *= NA; } return t * EPI.size(); }
 
+static void __attribute__((noinline)) scribbleStack(unsigned char v) { volatile unsigned char buf[64 * 1024]; for (size_t i = 0; i < sizeof buf; i++) buf[i] = v; }
 struct RefRun { int outcome; uint64_t steps; Env env; uint32_t pc, a, b, o; };  // outcome 0 exited, 1 undefined/oor at `steps`, 2 cap
 static RefRun refRun(Machine &m, const std::string &image, const std::string &input, uint64_t cap, uint64_t stopAfter /*0 = none*/) {
   m.undoTo(0); m.logWrites = true;
@@ -58,6 +59,7 @@ static Obs runImpl(simh::Sim &s, const std::string &image, const std::string &in
   s.setInput(input);
   if (trace) ad::sim_set_tracing(s.v, true);
   Obs o; o.err.clear();
+  scribbleStack((unsigned char)fill);   // the host stack is part of the host memory state: uninitialised locals pick this up
   o.rv = ad::sim_run(s.v, &o.kind, &o.err);
   o.out = s.ob.data; o.consumed = s.ib.consumed();
   o.pc = *s.v.pc; o.a = *s.v.areg; o.b = *s.v.breg; o.o = *s.v.oreg;
@@ -184,6 +186,48 @@ int main(int argc, char **argv) {
   rep.st.merge(r.stats);
   if (!r.complete) rep.caps.push_back("corpus: deadline (chunks " + std::to_string(r.chunksDone) + "/" + std::to_string(r.chunksTotal) + ")");
 
+  // ---- reads from file input streams (simin<n>), including reads at / past the end and from a missing file, under every fill
+  {
+    phase(ctx, "file input streams");
+    struct FI { uint32_t stream; std::string content; int reads; };
+    std::vector<FI> fis;
+    for (uint32_t sn : {256u, 512u, 0x700u, 0x800u}) for (std::string c : {std::string(""), std::string("A"), std::string("ab"), std::string("<missing>")}) for (int rd : {1, 2, 4}) fis.push_back({sn, c, rd});
+    auto body3 = [&](uint64_t b, uint64_t e, const std::set<uint64_t> &skip, Stats &st, volatile uint64_t *cur) {
+      std::string dir = ctx.scratch + "/fi" + std::to_string(b); mkdir(dir.c_str(), 0755); if (chdir(dir.c_str())) exit(3);
+      for (uint64_t i = b; i < e; i++) {
+        *cur = i; if (skip.count(i)) continue;
+        const FI &c = fis[i]; int ix = (c.stream >> 8) & 7;
+        // image: words 0..1003; code at byte 8 = reads x [LDAC 2; SVC]; LDAM 1001; STAM 1002; LDAC 0; SVC ; sp = 1000 ; mem[1002] = stream
+        std::string img(1004 * 4, '\0');
+        auto setw = [&](uint32_t a, uint32_t v) { memcpy(&img[a * 4], &v, 4); };
+        setw(1, 1000); setw(1002, c.stream);
+        std::string code = std::string("\x92", 1) + std::string(7, '\0');   // BR +2 at byte 0 -> byte 3?  (keep entry simple: byte 0 = BR 7 -> pc 8)
+        img[0] = (char)0x97;
+        std::string prog; for (int k = 0; k < c.reads; k++) prog += "\x32\xD3"; prog += "\xE3\xEE\x09\xE3\xEE\x2A\x30\xD3";
+        memcpy(&img[8], prog.data(), prog.size());
+        // reference
+        Machine m; Env env; env.fileInput = true; if (c.content != "<missing>") env.inFiles[ix] = c.content; m.loadWords(img);
+        int steps = 0; while (!env.exited && steps < 200) { auto cl = m.classify(false); if (cl != refisa::DEFINED && cl != refisa::NEED_INPUT_STREAM) break; m.step(env); steps++; }
+        if (!env.exited) harness_fail("file-input reference program does not exit");
+        for (int fill : FILLS) for (int tr = 0; tr < 2; tr++) {
+          for (int n = 0; n < 8; n++) unlink(("simin" + std::to_string(n)).c_str());
+          if (c.content != "<missing>") spit("simin" + std::to_string(ix), c.content);
+          simh::Sim s; s.create(fill, 0); memcpy(s.v.mem, img.data(), img.size()); s.setInput("");
+          if (tr) ad::sim_set_tracing(s.v, true);
+          scribbleStack((unsigned char)fill);
+          int kind; std::string err; int rv = ad::sim_run(s.v, &kind, &err);
+          st.add("runs"); st.add("file_input_runs");
+          if (kind) st.violation("file-input:exception", i, Obj().kv("family", "file-input").kv("stream", c.stream).kv("file_hex", hexs(c.content)).kv("reads", c.reads).kv("fill", fill).kb("trace", tr).kv("what", err).str());
+          else if ((uint32_t)rv != env.exitValue) st.violation(std::string("file-input:status") + (c.content == "<missing>" || (size_t)c.reads > c.content.size() ? ":at-end-of-file" : ""), i, Obj().kv("family", "file-input").kv("stream", c.stream).kv("file_hex", hexs(c.content)).kv("reads", c.reads).kv("fill", fill).kb("trace", tr).kv("what", "status " + std::to_string(rv) + ", reference " + std::to_string((int32_t)env.exitValue) + " (a read at the end of a file stream yields 255)").str());
+        }
+      }
+      for (int n = 0; n < 8; n++) unlink(("simin" + std::to_string(n)).c_str());
+      if (chdir(ctx.scratch.c_str())) exit(3);
+      rmdir(dir.c_str());
+    };
+    auto r3 = run_chunks(ctx, "filein", fis.size(), 16, body3, [&](uint64_t i) { return Obj().kv("family", "file-input").kv("stream", fis[i].stream).str(); }, 60);
+    rep.st.merge(r3.stats);
+  }
   // ---- shipped programs through the real loader, every fill x trace
   {
     phase(ctx, "shipped programs");
